@@ -130,10 +130,12 @@ def unit_zero_wrapper1(mode, nspin):
         RC = tm.var("rhocut")
         fq = [XMOD + ":MappedDFTKernel.__call__"]
         # grid point 0: below the cutoff in the sense of the mode; grid point 1: free
+        # "below the cutoff": the package-wide convention compares the spin-scaled density nspin * n_s (feature 0 of each channel) with rhocut;
+        # NPOL / POL cut on the spin average of it (= the total density), which is what makes the closed-shell limit agree with nspin = 1 (C07)
         if mode == "SEP":
             below = [tm.mk_lt(X0[s, 0, 0], RC) for s in range(nspin)]
         else:
-            below = [tm.mk_lt(sum(X0[s, 0, 0] for s in range(nspin)), RC)]
+            below = [tm.mk_lt(sum(X0[s, 0, 0] for s in range(nspin)), nspin * RC)]
         hyps = [tm.mk_lt(tm.ZERO, RC)] + below
         it.hyps = list(hyps)
         for pi_, (o, v, pc, _) in enumerate(all_paths(it, lambda: it.call(K, [X0.copy()], {"rhocut": RC}))):
@@ -164,8 +166,9 @@ def unit_zero_wrapper2(mode, nspin):
         rho, sig = sym_array("rho", (nspin, NS)), sym_array("sig", (2 * nspin - 1, NS))
         RC = tm.var("rhocut")
         fq = [X2MOD + ":MappedDFTKernel2.__call__", X2MOD + ":KernelEvalBase2.apply_libxc_baseline_"]
+        # SEP: each channel is evaluated at the spin-scaled density nspin * n_s, and that is what the cutoff applies to (C07 separability)
         if mode == "SEP":
-            below = [tm.mk_lt(rho[s, 0], RC) for s in range(nspin)]
+            below = [tm.mk_lt(nspin * rho[s, 0], RC) for s in range(nspin)]
         else:
             below = [tm.mk_lt(sum(rho[s, 0] for s in range(nspin)), RC)]
         hyps = [tm.mk_lt(tm.ZERO, RC)] + below + [tm.mk_lt(tm.ZERO, r) for r in rho.reshape(-1)]
